@@ -139,3 +139,44 @@ Theorem C19_history_deleted_stay_archived : forall root r h root1 wal1 res n ls,
      root_lookup (afile_name (make_archive id es)) (run_history root1 h) = Some (AFile (make_archive id es))).
 Proof. exact history_deleted_stay_archived. Qed.
 Print Assumptions C19_history_deleted_stay_archived.
+
+(** What is a log entry.  [file_lines cls content] is the reader's view of a file: [split_lines] models
+    [BufReader::lines()] on the bytes ([cls] classifies a raw line), [replay_entries] is what
+    [WalRecovery] restores from those lines.  A last line without a trailing newline is a line … *)
+Theorem C19_last_line_without_newline_is_a_line : forall cls pre l,
+  (pre = [] \/ exists b, pre = b ++ [10]) -> no_nl l -> l <> [] ->
+  file_lines cls (pre ++ l) = file_lines cls pre ++ [cls l].
+Proof. exact last_line_without_newline. Qed.
+Print Assumptions C19_last_line_without_newline_is_a_line.
+
+(** … "\r\n" terminates a line like "\n" … *)
+Theorem C19_crlf_terminated_line : forall cls pre l,
+  (pre = [] \/ exists b, pre = b ++ [10]) -> no_nl l ->
+  file_lines cls (pre ++ l ++ [13; 10]) = file_lines cls pre ++ [cls l].
+Proof. exact crlf_terminated_line. Qed.
+Print Assumptions C19_crlf_terminated_line.
+
+(** … and the archive is complete with respect to replay: a log file that is gone after a conservative
+    cleanup has an archive whose entries are exactly those WAL replay would have restored from the file,
+    in order (any line shapes: blank, foreign, torn, unterminated). *)
+Theorem C19_archive_complete_for_replay : forall fl w keep w' res n ls,
+  NoDup (names (cleaner_dir w)) -> Forall line_wf ls ->
+  cleanup_up_to true fl w keep = (w', res) ->
+  In (n, WFile ls) (cleaner_dir w) -> lookup n (cleaner_dir w') = None ->
+  exists id f, n = log_name id /\ a_log_id f = id /\
+               root_lookup (afile_name f) (w_root w') = Some (AFile f) /\
+               a_entries f = replay_entries ls.
+Proof. exact archive_complete_for_replay. Qed.
+Print Assumptions C19_archive_complete_for_replay.
+
+(** In particular a complete entry left without its newline by a crash between the writer's two writes
+    is in the archive of a deleted log. *)
+Theorem C19_unterminated_last_entry_archived : forall fl w keep w' res n cls pre l j,
+  NoDup (names (cleaner_dir w)) -> Forall line_wf (file_lines cls (pre ++ l)) ->
+  (pre = [] \/ exists b, pre = b ++ [10]) -> no_nl l -> l <> [] -> cls l = LEntry j ->
+  cleanup_up_to true fl w keep = (w', res) ->
+  In (n, WFile (file_lines cls (pre ++ l))) (cleaner_dir w) -> lookup n (cleaner_dir w') = None ->
+  exists f, root_lookup (afile_name f) (w_root w') = Some (AFile f) /\
+            a_entries f = replay_entries (file_lines cls pre) ++ [entry_of_json j].
+Proof. exact unterminated_last_entry_archived. Qed.
+Print Assumptions C19_unterminated_last_entry_archived.
